@@ -312,8 +312,10 @@ def schema(grammar, rnd, n, numeric_nts=(), with_numeric=True):
         else:
             (y, ty) = vs[1]
             a, b = atom2(x, tx, y, ty), rnd.choice([atom1(x, tx), atom1(y, ty), atom2(x, tx, y, ty)])
-        shape = rnd.randrange(6)
-        return [a, NOT(a), AND(a, b), OR(a, NOT(b)), OR(NOT(a), b), AND(a, b, NOT(atom1(x, tx)))][shape]
+        shape = rnd.randrange(10)
+        return [a, NOT(a), AND(a, b), OR(a, NOT(b)), OR(NOT(a), b), AND(a, b, NOT(atom1(x, tx))),
+                # absorption / complement shapes (simplifying combinators must not over-simplify them)
+                OR(AND(a, b), NOT(a)), AND(OR(a, b), NOT(a)), OR(NOT(a), AND(b, a)), AND(NOT(b), OR(b, a))][shape]
 
     while len(out) < n:
         kind = rnd.randrange(10)
